@@ -148,6 +148,21 @@ func (pq *PrefetchQueue) processPrefetch(req PrefetchRequest) {
 	// from the copy (it is the cache key and the validation opt-out).
 	if opt := prefetchReq.IsEdns0(); opt != nil {
 		opt.SetDo(true)
+		// Only shared entries are refreshed (PrefetchEligible), and the
+		// result is written back under that same shared key. The request is
+		// the triggering client's, though, and may still carry the subnet
+		// option that client was allowed to forward: refreshing with it
+		// would fetch an answer tailored to one subnet and publish it to
+		// everyone. Ask the question any client could have asked.
+		if hasEDNSClientSubnet(prefetchReq) {
+			kept := opt.Option[:0:0]
+			for _, option := range opt.Option {
+				if _, isSubnet := option.(*dns.EDNS0_SUBNET); !isSubnet {
+					kept = append(kept, option)
+				}
+			}
+			opt.Option = kept
+		}
 	} else {
 		prefetchReq.SetEdns0(dnsutil.DefaultMsgSize, true)
 	}
